@@ -120,3 +120,80 @@ func VerifC01_FailureNeverDischarges() {
 func hRecv01() *nflogpb.Receiver {
 	return &nflogpb.Receiver{GroupName: "recv", Integration: "webhook", Idx: 0}
 }
+
+// hSlow01 accepts every delivery, after a while: the first attempt may fail with a
+// recoverable error (retried after the backoff) and every attempt takes `takes`.
+type hSlow01 struct {
+	takes     time.Duration
+	failFirst bool
+	attempts  int
+	delivered int
+}
+
+func (n *hSlow01) Notify(ctx context.Context, as ...*alert.Alert) (bool, error) {
+	n.attempts++
+	select {
+	case <-time.After(n.takes):
+	case <-ctx.Done():
+		return true, ctx.Err()
+	}
+	if n.failFirst && n.attempts == 1 {
+		return true, errors.New("503 try again")
+	}
+	n.delivered++
+	return false, nil
+}
+
+// VerifC01_SiblingIndependence: a receiver with two integrations behind the real
+// fan-out. One is broken in any way (rejects, hangs until the flush deadline, or
+// works); the other accepts deliveries but is slow (each attempt takes up to 20 s and
+// the first may fail recoverably, so it succeeds on a retry after the backoff). With a
+// flush deadline of 5 minutes the healthy integration is sent the notification and it
+// is recorded, whatever its sibling does and in every interleaving; the flush reports
+// failure iff the sibling failed.
+//
+//vf:quick unwind=16 decisions=400 goroutines=8 preempt=1 paths=400000
+//vf:thorough unwind=16 decisions=600 goroutines=8 preempt=2 paths=4000000
+//vf:expect reach=sibling-failed reach=sibling-ok reach=retried
+func VerifC01_SiblingIndependence() {
+	l, err := nflog.New(nflog.Options{Retention: 100 * time.Hour, Metrics: prometheus.NewRegistry()})
+	if err != nil {
+		panic(err)
+	}
+	broken := &hNotifier01{script: []int{vfChoice("siblingOutcome", 3)}}
+	slow := &hSlow01{takes: vfSeconds("takes", 0, 20), failFirst: vfBool("firstAttemptFails")}
+	m := NewMetrics(prometheus.NewRegistry(), featurecontrol.NoopFlags{})
+	ints := []Integration{NewIntegration(broken, hRS01(true), "pager", 0, "recv"), NewIntegration(slow, hRS01(true), "webhook", 1, "recv")}
+	if vfBool("healthyFirst") {
+		ints = []Integration{NewIntegration(slow, hRS01(true), "webhook", 0, "recv"), NewIntegration(broken, hRS01(true), "pager", 1, "recv")}
+	}
+	stage := createReceiverStage("recv", ints, func() time.Duration { return 0 }, l, m, eventrecorder.Recorder{})
+	now := vfNow()
+	a := &alert.Alert{}
+	a.Labels = model.LabelSet{"alertname": "A"}
+	a.StartsAt, a.UpdatedAt = now, now
+	ctx, cancel := context.WithTimeout(context.Background(), 5*time.Minute)
+	defer cancel()
+	ctx = WithGroupKey(ctx, "gk")
+	ctx = WithReceiverName(ctx, "recv")
+	ctx = WithRepeatInterval(ctx, 4*time.Hour)
+	ctx = WithNow(ctx, now)
+	_, _, ferr := stage.Exec(ctx, promslog.NewNopLogger(), a)
+	vfAssert("healthy-integration-was-sent-the-notification", slow.delivered == 1)
+	idx := uint32(1)
+	if ints[0].Name() == "webhook" {
+		idx = 0
+	}
+	entries, qerr := l.Query(nflog.QGroupKey("gk"), nflog.QReceiver(&nflogpb.Receiver{GroupName: "recv", Integration: "webhook", Idx: idx}))
+	vfAssert("healthy-integration's-notification-recorded", qerr == nil && len(entries) == 1)
+	vfAssert("flush-fails-iff-the-sibling-failed", (ferr == nil) == (broken.script[0] == 0))
+	if slow.failFirst {
+		vfAssert("retried-after-recoverable-error", slow.attempts == 2)
+		vfReach("retried")
+	}
+	if broken.script[0] == 0 {
+		vfReach("sibling-ok")
+	} else {
+		vfReach("sibling-failed")
+	}
+}
